@@ -12,7 +12,10 @@
    passed as a separate first argument wherever the Python passes `Soil.Profile`.
 
    [day_core] computes the new state, the three rows AND the trace of the argument records it handed to the
-   processes (each argument record is let-bound once and used both for the call and for the trace): the replay
+   processes.  Structure: [arg_x] builds the argument record of process x from the context (parameters, clock, weather,
+   state before the step) and the results of earlier processes; [results] makes the 19 calls in source order;
+   [state_of] / [row_of] / [trace_of] say where the results go (the SAME [arg_x] terms are used for the calls and for
+   the trace).  The replay
    correspondence (harness/suites/day.py) runs it with recorded results and compares state, rows, summary and
    trace with the real run bit for bit.  [day_proc] has exactly the type of Clock.v's [proc].
 
@@ -282,173 +285,242 @@ Section M.
     if (0 <=? season)%Z then (if gs then p_field par else p_fallow_field par) else p_fallow_field par.
 
   (* ---- solution_single_time_step ------------------------------------------------------------------------------ *)
+  (* everything the step receives: parameters, clock values (season index, in-season?, days after planting already
+     incremented, step), the day's weather, the state before the step *)
+  Record Ctx := { x_par : DPar; x_season : Z; x_gs : bool; x_dap : Z; x_tsc : Z; x_w : W; x_s : DState }.
+  Definition x_soil (x : Ctx) : DSoil := p_soil (x_par x).
+  Definition x_prof (x : Ctx) : list (Comp F) := so_prof (x_soil x).
+  Definition x_crop (x : Ctx) : DCrop := sel_crop (x_par x) (x_season x).
+  Definition x_irr (x : Ctx) : DIrr := sel_irr (x_par x) (x_season x).
+  Definition x_field (x : Ctx) : DField := sel_field (x_par x) (x_season x) (x_gs x).
+  Definition x_wt (x : Ctx) : Z := p_water_table (x_par x).
+
+  (* what the processes returned; [rs_gdd] is the local `gdd` (growing_degree_day's result in the season, 0.3 outside) *)
+  Record Results := {
+    rs_gdd : F; rs_gw : R_gw; rs_rd : R_rd; rs_pi : R_pi; rs_dr : R_dr; rs_rp : R_rp; rs_ir : R_ir; rs_inf : R_inf;
+    rs_cr : R_cr; rs_ge : R_ge; rs_gst : R_gst; rs_cc : R_cc; rs_ev : R_ev; rs_tr : R_tr; rs_gi : R_gi; rs_hr : R_hr;
+    rs_bm : R_bm; rs_hi : R_hi; rs_rz : R_rz }.
+
+  (* time counters (l.131-152) *)
+  Definition arg_gd (x : Ctx) : A_gd :=
+    {| gdA_method := c_GDDmethod (x_crop x); gdA_tupp := c_Tupp (x_crop x); gdA_tbase := c_Tbase (x_crop x);
+       gdA_tmax := w_tmax (x_w x); gdA_tmin := w_tmin (x_w x) |}.
+  Definition gdd_cum_of (x : Ctx) (gdd : F) : F := if x_gs x then d_gdd_cum (x_s x) + gdd else #0.
+  (* 1. groundwater table *)
+  Definition arg_gw (x : Ctx) : A_gw :=
+    let s := x_s x in
+    {| gwA_zgw := d_z_gw s; gwA_th := d_th s; gwA_fcadj := d_th_fc_Adj s; gwA_wt := x_wt x; gwA_gw := w_gw (x_w x) |}.
+  (* 2. root development *)
+  Definition arg_rd (x : Ctx) (gdd : F) (r_gw : R_gw) : A_rd :=
+    let s := x_s x in
+    {| rdA_crop := x_crop x; rdA_dap := x_dap x; rdA_zroot := d_z_root s; rdA_dcd := d_delayed_cds s; rdA_gddcum := gdd_cum_of x gdd;
+       rdA_dgdd := d_delayed_gdds s; rdA_trratio := d_tr_ratio s; rdA_th := d_th s; rdA_cc := d_canopy_cover s;
+       rdA_ccns := d_canopy_cover_ns s; rdA_germ := d_germination s; rdA_rcor := d_r_cor s; rdA_tpot := d_t_pot s;
+       rdA_zgw := gwR_zgw r_gw; rdA_gdd := gdd; rdA_gs := x_gs x; rdA_wt := x_wt x |}.
+  (* 3. pre-irrigation *)
+  Definition arg_pi (x : Ctx) (r_rd : R_rd) : A_pi :=
+    {| piA_crop := x_crop x; piA_dap := x_dap x; piA_zroot := rdR_zroot r_rd; piA_th := d_th (x_s x); piA_gs := x_gs x;
+       piA_irr := x_irr x |}.
+  (* 4. drainage *)
+  Definition arg_dr (x : Ctx) (r_gw : R_gw) (r_pi : R_pi) : A_dr := {| drA_th := piR_th r_pi; drA_fcadj := gwR_fcadj r_gw |}.
+  (* 5. surface runoff; the curve-number percentage applies only when the adjustment is switched on *)
+  Definition arg_rp (x : Ctx) (r_dr : R_dr) : A_rp :=
+    let field := x_field x in let soil := x_soil x in
+    {| rpA_rain := w_rain (x_w x); rpA_th := drR_th r_dr; rpA_daysub := d_day_submerged (x_s x); rpA_srinhb := f_sr_inhb field;
+       rpA_bunds := f_bunds field; rpA_zbund := f_z_bund field;
+       rpA_pct := if f_cn_adj field then f_cn_adj_pct field else #0;
+       rpA_cn := so_cn soil; rpA_adjcn := so_adj_cn soil; rpA_zcn := so_z_cn soil; rpA_ncomp := so_nComp soil |}.
+  (* 6. irrigation *)
+  Definition arg_ir (x : Ctx) (r_rd : R_rd) (r_dr : R_dr) (r_rp : R_rp) : A_ir :=
+    let s := x_s x in let irr := x_irr x in
+    {| irA_method := i_method irr; irA_smt := i_SMT irr; irA_eff := i_AppEff irr; irA_maxirr := i_MaxIrr irr;
+       irA_interval := i_IrrInterval irr; irA_sched := i_Schedule irr; irA_depth := i_depth irr;
+       irA_maxseason := i_MaxIrrSeason irr; irA_stage := d_growth_stage s; irA_irrcum := d_irr_cum s;
+       irA_epot := d_e_pot s; irA_tpot := d_t_pot s; irA_zroot := rdR_zroot r_rd; irA_th := drR_th r_dr; irA_dap := x_dap x;
+       irA_tsc := x_tsc x; irA_crop := x_crop x; irA_ztop := so_z_top (x_soil x); irA_gs := x_gs x; irA_rain := w_rain (x_w x);
+       irA_runoff := rpR_runoff r_rp |}.
+  (* 7. infiltration (receives drainage's DeepPerc and FluxOut, rainfall_partition's Runoff and Infl) *)
+  Definition arg_inf (x : Ctx) (r_gw : R_gw) (r_dr : R_dr) (r_rp : R_rp) (r_ir : R_ir) : A_inf :=
+    let field := x_field x in
+    {| infA_surf := d_surface_storage (x_s x); infA_fcadj := gwR_fcadj r_gw; infA_th := drR_th r_dr; infA_infl := rpR_infl r_rp;
+       infA_irr := irR_irr r_ir; infA_eff := i_AppEff (x_irr x); infA_bunds := f_bunds field; infA_zbund := f_z_bund field;
+       infA_flux := drR_flux r_dr; infA_deepperc := drR_deepperc r_dr; infA_runoff := rpR_runoff r_rp; infA_gs := x_gs x |}.
+  (* 8. capillary rise *)
+  Definition arg_cr (x : Ctx) (r_gw : R_gw) (r_inf : R_inf) : A_cr :=
+    {| crA_nlayer := so_nLayer (x_soil x); crA_fshape := so_fshape_cr (x_soil x); crA_th := infR_th r_inf; crA_fcadj := gwR_fcadj r_gw;
+       crA_zgw := gwR_zgw r_gw; crA_flux := infR_flux r_inf; crA_wt := x_wt x |}.
+  (* 9. germination *)
+  Definition arg_ge (x : Ctx) (gdd : F) (r_cr : R_cr) : A_ge :=
+    let s := x_s x in
+    {| geA_germ := d_germination s; geA_prot := d_protected_seed s; geA_dcd := d_delayed_cds s;
+       geA_dgdd := d_delayed_gdds s; geA_th := crR_th r_cr; geA_zgerm := so_z_germ (x_soil x); geA_germthr := c_GermThr (x_crop x);
+       geA_plantmethod := c_PlantMethod (x_crop x); geA_gdd := gdd; geA_gs := x_gs x |}.
+  (* 10. growth stage *)
+  Definition arg_gst (x : Ctx) (gdd : F) (r_ge : R_ge) : A_gst :=
+    {| gstA_crop := x_crop x; gstA_dap := x_dap x; gstA_dcd := geR_dcd r_ge; gstA_gddcum := gdd_cum_of x gdd; gstA_dgdd := geR_dgdd r_ge;
+       gstA_old := d_growth_stage (x_s x); gstA_gs := x_gs x |}.
+  (* 11. canopy cover *)
+  Definition arg_cc (x : Ctx) (gdd : F) (r_rd : R_rd) (r_cr : R_cr) (r_ge : R_ge) : A_cc :=
+    let s := x_s x in
+    {| ccA_crop := x_crop x; ccA_ztop := so_z_top (x_soil x); ccA_dap := x_dap x; ccA_dcd := geR_dcd r_ge; ccA_gddcum := gdd_cum_of x gdd;
+       ccA_dgdd := geR_dgdd r_ge; ccA_th := crR_th r_cr; ccA_zroot := rdR_zroot r_rd; ccA_cc := d_canopy_cover s; ccA_cc_prev := d_cc_prev s;
+       ccA_cc_ns := d_canopy_cover_ns s; ccA_cc_adj := d_canopy_cover_adj s; ccA_cc_adj_ns := d_canopy_cover_adj_ns s;
+       ccA_ccx_act := d_ccx_act s; ccA_ccx_act_ns := d_ccx_act_ns s; ccA_ccx_w := d_ccx_w s; ccA_ccx_w_ns := d_ccx_w_ns s;
+       ccA_cc0_adj := d_cc0_adj s; ccA_ccx_early_sen := d_ccx_early_sen s; ccA_t_early_sen := d_t_early_sen s;
+       ccA_prot := geR_prot r_ge; ccA_premat := d_premat_senes s; ccA_dead := d_crop_dead s;
+       ccA_gdd := gdd; ccA_et0 := w_et0 (x_w x); ccA_gs := x_gs x |}.
+  (* 12. soil evaporation *)
+  Definition arg_ev (x : Ctx) (gdd : F) (r_ir : R_ir) (r_inf : R_inf) (r_cr : R_cr) (r_ge : R_ge) (r_cc : R_cc) : A_ev :=
+    let s := x_s x in let soil := x_soil x in let crop := x_crop x in let irr := x_irr x in let field := x_field x in
+    {| evA_steps := p_evap_steps (x_par x); evA_simoff := p_sim_off (x_par x); evA_tsc := x_tsc x; evA_zmin := so_evap_z_min soil;
+       evA_zmax := so_evap_z_max soil; evA_rew := so_rew soil; evA_kex := so_kex soil; evA_fwcc := so_fwcc soil;
+       evA_fwrelexp := so_f_wrel_exp soil; evA_fevap := so_f_evap soil; evA_caltype := c_CalendarType crop;
+       evA_senescence := c_Senescence crop; evA_method := i_method irr; evA_wetsurf := i_WetSurf irr;
+       evA_mulches := f_mulches field; evA_fmulch := f_f_mulch field; evA_mulchpct := f_mulch_pct field; evA_dap := x_dap x;
+       evA_wsurf := d_w_surf s; evA_evapz := d_evap_z s; evA_stage2 := d_stage2 s; evA_th := crR_th r_cr; evA_dcd := geR_dcd r_ge;
+       evA_gddcum := gdd_cum_of x gdd; evA_dgdd := geR_dgdd r_ge; evA_ccxw := ccR_ccx_w r_cc; evA_ccadj := ccR_cc_adj r_cc;
+       evA_ccxact := ccR_ccx_act r_cc; evA_cc := ccR_cc r_cc; evA_premat := ccR_premat r_cc; evA_surf := infR_surf r_inf;
+       evA_wstage2 := d_w_stage_2 s; evA_epot := d_e_pot s; evA_et0 := w_et0 (x_w x); evA_infl := infR_infl r_inf;
+       evA_rain := w_rain (x_w x); evA_irr := irR_irr r_ir; evA_gs := x_gs x |}.
+  (* 13. transpiration *)
+  Definition arg_tr (x : Ctx) (gdd : F) (r_rd : R_rd) (r_rp : R_rp) (r_ir : R_ir) (r_ge : R_ge) (r_cc : R_cc) (r_ev : R_ev) : A_tr :=
+    let s := x_s x in
+    {| trA_ncomp := so_nComp (x_soil x); trA_ztop := so_z_top (x_soil x); trA_crop := x_crop x; trA_method := i_method (x_irr x);
+       trA_smt := i_NetIrrSMT (x_irr x); trA_dap := x_dap x; trA_dcd := geR_dcd r_ge; trA_age_days_ns := d_age_days_ns s;
+       trA_age_days := d_age_days s; trA_ccx_w_ns := ccR_ccx_w_ns r_cc; trA_ccx_w := ccR_ccx_w r_cc;
+       trA_cc_adj_ns := ccR_cc_adj_ns r_cc; trA_cc_adj := ccR_cc_adj r_cc; trA_cc_ns := ccR_cc_ns r_cc; trA_cc := ccR_cc r_cc;
+       trA_cc_prev := ccR_cc_prev r_cc; trA_surf := evR_surf r_ev; trA_day_sub := rpR_daysub r_rp;
+       trA_aer_comp := d_aer_days_comp s; trA_zroot := rdR_zroot r_rd; trA_th := evR_th r_ev; trA_t_early_sen := ccR_t_early_sen r_cc;
+       trA_aer_days := d_aer_days s; trA_rcor := rdR_rcor r_rd; trA_irr_net_cum := d_irr_net_cum s;
+       trA_depletion := irR_depletion r_ir; trA_taw := irR_taw r_ir; trA_tr_ratio := d_tr_ratio s; trA_et0 := w_et0 (x_w x);
+       trA_co2c := p_co2c (x_par x) (x_season x); trA_co2r := p_co2r (x_par x); trA_gs := x_gs x; trA_gdd := gdd |}.
+  (* 14. groundwater inflow *)
+  Definition arg_gi (x : Ctx) (r_gw : R_gw) (r_tr : R_tr) : A_gi :=
+    {| giA_th := trR_th r_tr; giA_wtsoil := gwR_wtsoil r_gw; giA_zgw := gwR_zgw r_gw |}.
+  (* 15. reference harvest index *)
+  Definition arg_hr (x : Ctx) (r_ge : R_ge) (r_cc : R_cc) (r_tr : R_tr) : A_hr :=
+    let s := x_s x in
+    {| hrA_hiref := d_hi_ref s; hrA_hifinal := d_HIfinal s; hrA_dap := x_dap x; hrA_dcd := geR_dcd r_ge; hrA_yf := d_yield_form s;
+       hrA_pct := d_pct_lag_phase s; hrA_cc := trR_cc r_tr; hrA_ccprev := ccR_cc_prev r_cc; hrA_ccxw := ccR_ccx_w r_cc;
+       hrA_crop := x_crop x; hrA_gs := x_gs x |}.
+  (* 16. biomass accumulation *)
+  Definition arg_bm (x : Ctx) (r_ge : R_ge) (r_tr : R_tr) (r_hr : R_hr) : A_bm :=
+    {| bmA_crop := x_crop x; bmA_dap := x_dap x; bmA_dcd := geR_dcd r_ge; bmA_hiref := hrR_hiref r_hr; bmA_pct := hrR_pct r_hr;
+       bmA_b := d_biomass (x_s x); bmA_bns := d_biomass_ns (x_s x); bmA_tr := trR_tr r_tr; bmA_trpot := trR_trpot_ns r_tr;
+       bmA_et0 := w_et0 (x_w x); bmA_gs := x_gs x |}.
+  (* 17. harvest index *)
+  Definition arg_hi (x : Ctx) (r_rd : R_rd) (r_ge : R_ge) (r_cc : R_cc) (r_tr : R_tr) (r_gi : R_gi) (r_hr : R_hr) (r_bm : R_bm) : A_hi :=
+    let s := x_s x in
+    {| hiA_ztop := so_z_top (x_soil x); hiA_crop := x_crop x; hiA_hi := d_harvest_index s; hiA_hiadj := d_harvest_index_adj s;
+       hiA_preadj := d_pre_adj s; hiA_fpre := d_f_pre s; hiA_fpol := d_f_pol s; hiA_scor1 := d_s_cor1 s; hiA_scor2 := d_s_cor2 s;
+       hiA_upp := d_fpost_upp s; hiA_dwn := d_fpost_dwn s; hiA_fpost := d_f_post s; hiA_zroot := rdR_zroot r_rd; hiA_th := giR_th r_gi;
+       hiA_t_early_sen := ccR_t_early_sen r_cc; hiA_hiref := hrR_hiref r_hr; hiA_dap := x_dap x; hiA_dcd := geR_dcd r_ge;
+       hiA_yf := hrR_yf r_hr; hiA_b := bmR_b r_bm; hiA_bns := bmR_bns r_bm; hiA_cc := trR_cc r_tr; hiA_et0 := w_et0 (x_w x);
+       hiA_tmax := w_tmax (x_w x); hiA_tmin := w_tmin (x_w x); hiA_gs := x_gs x |}.
+  (* 20. root zone water *)
+  Definition arg_rz (x : Ctx) (r_rd : R_rd) (r_gi : R_gi) : A_rz :=
+    {| rzA_zroot := rdR_zroot r_rd; rzA_th := giR_th r_gi; rzA_ztop := so_z_top (x_soil x); rzA_zmin := c_Zmin (x_crop x);
+       rzA_aer := c_Aer (x_crop x) |}.
+
+  (* the calls, in the order of the source *)
+  Definition results (x : Ctx) (P : Procs) : Results :=
+    let prof := x_prof x in
+    let gdd := if x_gs x then gdR_gdd (p_gd P (arg_gd x)) else 3#/10 in    (* l.151: the local gdd is 0.3 outside the season *)
+    let r_gw := p_gw P prof (arg_gw x) in
+    let r_rd := p_rd P prof (arg_rd x gdd r_gw) in
+    let r_pi := p_pi P prof (arg_pi x r_rd) in
+    let r_dr := p_dr P prof (arg_dr x r_gw r_pi) in
+    let r_rp := p_rp P prof (arg_rp x r_dr) in
+    let r_ir := p_ir P prof (arg_ir x r_rd r_dr r_rp) in
+    let r_inf := p_inf P prof (arg_inf x r_gw r_dr r_rp r_ir) in
+    let r_cr := p_cr P prof (arg_cr x r_gw r_inf) in
+    let r_ge := p_ge P prof (arg_ge x gdd r_cr) in
+    let r_gst := p_gst P (arg_gst x gdd r_ge) in
+    let r_cc := p_cc P prof (arg_cc x gdd r_rd r_cr r_ge) in
+    let r_ev := p_ev P prof (arg_ev x gdd r_ir r_inf r_cr r_ge r_cc) in
+    let r_tr := p_tr P prof (arg_tr x gdd r_rd r_rp r_ir r_ge r_cc r_ev) in
+    let r_gi := p_gi P prof (arg_gi x r_gw r_tr) in
+    let r_hr := p_hr P (arg_hr x r_ge r_cc r_tr) in
+    let r_bm := p_bm P (arg_bm x r_ge r_tr r_hr) in
+    let r_hi := p_hi P prof (arg_hi x r_rd r_ge r_cc r_tr r_gi r_hr r_bm) in
+    let r_rz := p_rz P prof (arg_rz x r_rd r_gi) in
+    {| rs_gdd := gdd; rs_gw := r_gw; rs_rd := r_rd; rs_pi := r_pi; rs_dr := r_dr; rs_rp := r_rp; rs_ir := r_ir; rs_inf := r_inf;
+       rs_cr := r_cr; rs_ge := r_ge; rs_gst := r_gst; rs_cc := r_cc; rs_ev := r_ev; rs_tr := r_tr; rs_gi := r_gi; rs_hr := r_hr;
+       rs_bm := r_bm; rs_hi := r_hi; rs_rz := r_rz |}.
+
+  (* the arguments handed to the processes, as functions of the results of the earlier processes *)
+  Definition trace_of (x : Ctx) (R : Results) : Trace :=
+    let gdd := rs_gdd R in
+    {| t_gd := if x_gs x then Some (arg_gd x) else None; t_gw := arg_gw x; t_rd := arg_rd x gdd (rs_gw R); t_pi := arg_pi x (rs_rd R);
+       t_dr := arg_dr x (rs_gw R) (rs_pi R); t_rp := arg_rp x (rs_dr R); t_ir := arg_ir x (rs_rd R) (rs_dr R) (rs_rp R);
+       t_inf := arg_inf x (rs_gw R) (rs_dr R) (rs_rp R) (rs_ir R); t_cr := arg_cr x (rs_gw R) (rs_inf R);
+       t_ge := arg_ge x gdd (rs_cr R); t_gst := arg_gst x gdd (rs_ge R); t_cc := arg_cc x gdd (rs_rd R) (rs_cr R) (rs_ge R);
+       t_ev := arg_ev x gdd (rs_ir R) (rs_inf R) (rs_cr R) (rs_ge R) (rs_cc R);
+       t_tr := arg_tr x gdd (rs_rd R) (rs_rp R) (rs_ir R) (rs_ge R) (rs_cc R) (rs_ev R); t_gi := arg_gi x (rs_gw R) (rs_tr R);
+       t_hr := arg_hr x (rs_ge R) (rs_cc R) (rs_tr R); t_bm := arg_bm x (rs_ge R) (rs_tr R) (rs_hr R);
+       t_hi := arg_hi x (rs_rd R) (rs_ge R) (rs_cc R) (rs_tr R) (rs_gi R) (rs_hr R) (rs_bm R); t_rz := arg_rz x (rs_rd R) (rs_gi R) |}.
+
+  (* 18. yield potential, 19. dry and fresh yield; 21. the net irrigation of the day includes the pre-irrigation *)
+  Definition ypot_of (R : Results) : F := (bmR_bns (rs_bm R) / #100) * hiR_hi (rs_hi R).
+  Definition dry_of (x : Ctx) (R : Results) : F := if x_gs x then (bmR_b (rs_bm R) / #100) * hiR_hiadj (rs_hi R) else #0.
+  Definition fresh_of (x : Ctx) (R : Results) : F := if x_gs x then dry_of x R / (c_YldWC (x_crop x) / #100) else #0.
+  Definition irrnet_of (R : Results) : F := trR_irrnet (rs_tr R) + piR_preirr (rs_pi R).
+  Definition irrday_of (x : Ctx) (R : Results) : F :=
+    if x_gs x then (if (i_method (x_irr x) =? 4)%Z then irrnet_of R else irR_irr (rs_ir R)) else #0.
+
+  (* which result is stored into which state field *)
+  Definition state_of (x : Ctx) (R : Results) : DState :=
+    let s := x_s x in let gs := x_gs x in let w := x_w x in
+    let r_gw := rs_gw R in let r_rd := rs_rd R in let r_ir := rs_ir R in let r_ge := rs_ge R in let r_cc := rs_cc R in
+    let r_ev := rs_ev R in let r_tr := rs_tr R in let r_hr := rs_hr R in let r_bm := rs_bm R in let r_hi := rs_hi R in
+    let r_rz := rs_rz R in
+    {| d_age_days := trR_age_days r_tr; d_age_days_ns := trR_age_days_ns r_tr; d_aer_days := trR_aer_days r_tr;
+       d_aer_days_comp := trR_aer_comp r_tr; d_irr_cum := irR_irrcum r_ir; d_delayed_gdds := geR_dgdd r_ge; d_delayed_cds := geR_dcd r_ge;
+       d_pct_lag_phase := hrR_pct r_hr; d_t_early_sen := ccR_t_early_sen r_cc; d_gdd_cum := gdd_cum_of x (rs_gdd R);
+       d_day_submerged := trR_day_sub r_tr; d_irr_net_cum := trR_irr_net_cum r_tr + piR_preirr (rs_pi R); d_e_pot := evR_epot r_ev;
+       d_t_pot := trR_t_pot r_tr;
+       d_pre_adj := hiR_preadj r_hi; d_crop_dead := ccR_dead r_cc; d_germination := geR_germ r_ge; d_premat_senes := ccR_premat r_cc;
+       d_growing_season := gs; d_yield_form := hrR_yf r_hr; d_stage2 := evR_stage2 r_ev; d_wt_in_soil := gwR_wtsoil r_gw;
+       d_stage := d_stage s; d_f_pre := hiR_fpre r_hi; d_f_post := hiR_fpost r_hi; d_fpost_dwn := hiR_dwn r_hi;
+       d_fpost_upp := hiR_upp r_hi; d_h1_cor_asum := d_h1_cor_asum s; d_h1_cor_bsum := d_h1_cor_bsum s; d_f_pol := hiR_fpol r_hi;
+       d_s_cor1 := hiR_scor1 r_hi; d_s_cor2 := hiR_scor2 r_hi; d_hi_ref := hrR_hiref r_hr; d_HIfinal := d_HIfinal s;
+       d_growth_stage := gstR_stage (rs_gst R); d_tr_ratio := trR_tr_ratio r_tr; d_r_cor := rdR_rcor r_rd;
+       d_canopy_cover := trR_cc r_tr; d_canopy_cover_adj := ccR_cc_adj r_cc; d_canopy_cover_ns := ccR_cc_ns r_cc;
+       d_canopy_cover_adj_ns := ccR_cc_adj_ns r_cc; d_biomass := bmR_b r_bm; d_biomass_ns := bmR_bns r_bm; d_YieldPot := ypot_of R;
+       d_harvest_index := hiR_hi r_hi; d_harvest_index_adj := hiR_hiadj r_hi; d_ccx_act := ccR_ccx_act r_cc;
+       d_ccx_act_ns := ccR_ccx_act_ns r_cc; d_ccx_w := ccR_ccx_w r_cc; d_ccx_w_ns := ccR_ccx_w_ns r_cc;
+       d_ccx_early_sen := ccR_ccx_early_sen r_cc; d_cc_prev := ccR_cc_prev r_cc; d_protected_seed := ccR_prot r_cc;
+       d_DryYield := dry_of x R; d_FreshYield := fresh_of x R; d_z_root := rdR_zroot r_rd; d_cc0_adj := ccR_cc0_adj r_cc;
+       d_surface_storage := trR_surf r_tr; d_z_gw := gwR_zgw r_gw; d_th_fc_Adj := gwR_fcadj r_gw; d_th := giR_th (rs_gi R);
+       d_thini := d_thini s;
+       d_time_step_counter := x_tsc x; d_precipitation := w_rain w; d_temp_max := w_tmax w; d_temp_min := w_tmin w; d_et0 := w_et0 w;
+       d_sumET0EarlySen := d_sumET0EarlySen s; d_gdd := if gs then rs_gdd R else d_gdd s; d_w_surf := evR_wsurf r_ev;
+       d_evap_z := evR_evapz r_ev; d_w_stage_2 := evR_wstage2 r_ev;
+       (* outside the season depletion / taw of the root zone are stored (l.468-469) *)
+       d_depletion := if gs then trR_depletion r_tr else rzR_drrz r_rz;
+       d_taw := if gs then trR_taw r_tr else rzR_tawrz r_rz |}.
+
+  (* what is written into the three tables *)
+  Definition row_of (x : Ctx) (R : Results) : DRow :=
+    let tsc := x_tsc x in let season := x_season x in let dap := x_dap x in
+    let r_inf := rs_inf R in let r_ev := rs_ev R in let r_tr := rs_tr R in let r_cc := rs_cc R in let r_bm := rs_bm R in
+    let r_hi := rs_hi R in
+    {| r_flux := {| fl_tsc := tsc; fl_season := season; fl_dap := dap; fl_Wr := rzR_wr (rs_rz R); fl_zgw := gwR_zgw (rs_gw R);
+                    fl_surf := trR_surf r_tr; fl_IrrDay := irrday_of x R; fl_Infl := infR_infl r_inf; fl_Runoff := infR_runoff r_inf;
+                    fl_DeepPerc := infR_deepperc r_inf; fl_CR := crR_cr (rs_cr R); fl_GwIn := giR_gwin (rs_gi R); fl_Es := evR_es r_ev;
+                    fl_EsPot := evR_espot r_ev; fl_Tr := trR_tr r_tr; fl_TrPot := trR_trpot r_tr |};
+       r_growth := {| gr_tsc := tsc; gr_season := season; gr_dap := dap; gr_gdd := rs_gdd R; gr_gdd_cum := gdd_cum_of x (rs_gdd R);
+                      gr_z_root := rdR_zroot (rs_rd R);
+                      gr_cc := trR_cc r_tr; gr_cc_ns := ccR_cc_ns r_cc; gr_B := bmR_b r_bm; gr_B_ns := bmR_bns r_bm;
+                      gr_HI := hiR_hi r_hi; gr_HIadj := hiR_hiadj r_hi; gr_Dry := dry_of x R; gr_Fresh := fresh_of x R; gr_Pot := ypot_of R |};
+       r_sto := {| st_tsc := tsc; st_gs := x_gs x; st_dap := dap; st_th := giR_th (rs_gi R) |} |}.
+
+  Definition day_out (x : Ctx) (R : Results) : DayOut :=
+    {| o_state := state_of x R; o_row := row_of x R; o_trace := trace_of x R |}.
+
   Definition day_core (par : DPar) (P : Procs) (season : Z) (gs : bool) (dap tsc : Z) (w : W) (s : DState) : DayOut :=
-    let soil := p_soil par in
-    let prof := so_prof soil in
-    let crop := sel_crop par season in
-    let irr := sel_irr par season in
-    let field := sel_field par season gs in
-    let wt := p_water_table par in
-    (* time counters (l.131-152): growing degree days of the day; the local gdd is 0.3 outside the season *)
-    let a_gd := {| gdA_method := c_GDDmethod crop; gdA_tupp := c_Tupp crop; gdA_tbase := c_Tbase crop;
-                   gdA_tmax := w_tmax w; gdA_tmin := w_tmin w |} in
-    let gdd := if gs then gdR_gdd (p_gd P a_gd) else 3#/10 in
-    let gdd_cum := if gs then d_gdd_cum s + gdd else #0 in
-    (* 1. groundwater table *)
-    let a_gw := {| gwA_zgw := d_z_gw s; gwA_th := d_th s; gwA_fcadj := d_th_fc_Adj s; gwA_wt := wt; gwA_gw := w_gw w |} in
-    let r_gw := p_gw P prof a_gw in
-    let fcadj := gwR_fcadj r_gw in
-    let zgw := gwR_zgw r_gw in
-    (* 2. root development *)
-    let a_rd := {| rdA_crop := crop; rdA_dap := dap; rdA_zroot := d_z_root s; rdA_dcd := d_delayed_cds s; rdA_gddcum := gdd_cum;
-                   rdA_dgdd := d_delayed_gdds s; rdA_trratio := d_tr_ratio s; rdA_th := d_th s; rdA_cc := d_canopy_cover s;
-                   rdA_ccns := d_canopy_cover_ns s; rdA_germ := d_germination s; rdA_rcor := d_r_cor s; rdA_tpot := d_t_pot s;
-                   rdA_zgw := zgw; rdA_gdd := gdd; rdA_gs := gs; rdA_wt := wt |} in
-    let r_rd := p_rd P prof a_rd in
-    let zroot := rdR_zroot r_rd in
-    (* 3. pre-irrigation *)
-    let a_pi := {| piA_crop := crop; piA_dap := dap; piA_zroot := zroot; piA_th := d_th s; piA_gs := gs; piA_irr := irr |} in
-    let r_pi := p_pi P prof a_pi in
-    (* 4. drainage *)
-    let a_dr := {| drA_th := piR_th r_pi; drA_fcadj := fcadj |} in
-    let r_dr := p_dr P prof a_dr in
-    (* 5. surface runoff; the curve-number percentage applies only when the adjustment is switched on *)
-    let a_rp := {| rpA_rain := w_rain w; rpA_th := drR_th r_dr; rpA_daysub := d_day_submerged s; rpA_srinhb := f_sr_inhb field;
-                   rpA_bunds := f_bunds field; rpA_zbund := f_z_bund field;
-                   rpA_pct := if f_cn_adj field then f_cn_adj_pct field else #0;
-                   rpA_cn := so_cn soil; rpA_adjcn := so_adj_cn soil; rpA_zcn := so_z_cn soil; rpA_ncomp := so_nComp soil |} in
-    let r_rp := p_rp P prof a_rp in
-    (* 6. irrigation *)
-    let a_ir := {| irA_method := i_method irr; irA_smt := i_SMT irr; irA_eff := i_AppEff irr; irA_maxirr := i_MaxIrr irr;
-                   irA_interval := i_IrrInterval irr; irA_sched := i_Schedule irr; irA_depth := i_depth irr;
-                   irA_maxseason := i_MaxIrrSeason irr; irA_stage := d_growth_stage s; irA_irrcum := d_irr_cum s;
-                   irA_epot := d_e_pot s; irA_tpot := d_t_pot s; irA_zroot := zroot; irA_th := drR_th r_dr; irA_dap := dap;
-                   irA_tsc := tsc; irA_crop := crop; irA_ztop := so_z_top soil; irA_gs := gs; irA_rain := w_rain w;
-                   irA_runoff := rpR_runoff r_rp |} in
-    let r_ir := p_ir P prof a_ir in
-    let irrd := irR_irr r_ir in
-    (* 7. infiltration (receives drainage's DeepPerc and FluxOut, rainfall_partition's Runoff and Infl) *)
-    let a_inf := {| infA_surf := d_surface_storage s; infA_fcadj := fcadj; infA_th := drR_th r_dr; infA_infl := rpR_infl r_rp;
-                    infA_irr := irrd; infA_eff := i_AppEff irr; infA_bunds := f_bunds field; infA_zbund := f_z_bund field;
-                    infA_flux := drR_flux r_dr; infA_deepperc := drR_deepperc r_dr; infA_runoff := rpR_runoff r_rp; infA_gs := gs |} in
-    let r_inf := p_inf P prof a_inf in
-    (* 8. capillary rise *)
-    let a_cr := {| crA_nlayer := so_nLayer soil; crA_fshape := so_fshape_cr soil; crA_th := infR_th r_inf; crA_fcadj := fcadj;
-                   crA_zgw := zgw; crA_flux := infR_flux r_inf; crA_wt := wt |} in
-    let r_cr := p_cr P prof a_cr in
-    (* 9. germination *)
-    let a_ge := {| geA_germ := d_germination s; geA_prot := d_protected_seed s; geA_dcd := d_delayed_cds s;
-                   geA_dgdd := d_delayed_gdds s; geA_th := crR_th r_cr; geA_zgerm := so_z_germ soil; geA_germthr := c_GermThr crop;
-                   geA_plantmethod := c_PlantMethod crop; geA_gdd := gdd; geA_gs := gs |} in
-    let r_ge := p_ge P prof a_ge in
-    let dcd := geR_dcd r_ge in
-    let dgdd := geR_dgdd r_ge in
-    (* 10. growth stage *)
-    let a_gst := {| gstA_crop := crop; gstA_dap := dap; gstA_dcd := dcd; gstA_gddcum := gdd_cum; gstA_dgdd := dgdd;
-                    gstA_old := d_growth_stage s; gstA_gs := gs |} in
-    let r_gst := p_gst P a_gst in
-    (* 11. canopy cover *)
-    let a_cc := {| ccA_crop := crop; ccA_ztop := so_z_top soil; ccA_dap := dap; ccA_dcd := dcd; ccA_gddcum := gdd_cum;
-                   ccA_dgdd := dgdd; ccA_th := crR_th r_cr; ccA_zroot := zroot; ccA_cc := d_canopy_cover s; ccA_cc_prev := d_cc_prev s;
-                   ccA_cc_ns := d_canopy_cover_ns s; ccA_cc_adj := d_canopy_cover_adj s; ccA_cc_adj_ns := d_canopy_cover_adj_ns s;
-                   ccA_ccx_act := d_ccx_act s; ccA_ccx_act_ns := d_ccx_act_ns s; ccA_ccx_w := d_ccx_w s; ccA_ccx_w_ns := d_ccx_w_ns s;
-                   ccA_cc0_adj := d_cc0_adj s; ccA_ccx_early_sen := d_ccx_early_sen s; ccA_t_early_sen := d_t_early_sen s;
-                   ccA_prot := geR_prot r_ge; ccA_premat := d_premat_senes s; ccA_dead := d_crop_dead s;
-                   ccA_gdd := gdd; ccA_et0 := w_et0 w; ccA_gs := gs |} in
-    let r_cc := p_cc P prof a_cc in
-    (* 12. soil evaporation *)
-    let a_ev := {| evA_steps := p_evap_steps par; evA_simoff := p_sim_off par; evA_tsc := tsc; evA_zmin := so_evap_z_min soil;
-                   evA_zmax := so_evap_z_max soil; evA_rew := so_rew soil; evA_kex := so_kex soil; evA_fwcc := so_fwcc soil;
-                   evA_fwrelexp := so_f_wrel_exp soil; evA_fevap := so_f_evap soil; evA_caltype := c_CalendarType crop;
-                   evA_senescence := c_Senescence crop; evA_method := i_method irr; evA_wetsurf := i_WetSurf irr;
-                   evA_mulches := f_mulches field; evA_fmulch := f_f_mulch field; evA_mulchpct := f_mulch_pct field; evA_dap := dap;
-                   evA_wsurf := d_w_surf s; evA_evapz := d_evap_z s; evA_stage2 := d_stage2 s; evA_th := crR_th r_cr; evA_dcd := dcd;
-                   evA_gddcum := gdd_cum; evA_dgdd := dgdd; evA_ccxw := ccR_ccx_w r_cc; evA_ccadj := ccR_cc_adj r_cc;
-                   evA_ccxact := ccR_ccx_act r_cc; evA_cc := ccR_cc r_cc; evA_premat := ccR_premat r_cc; evA_surf := infR_surf r_inf;
-                   evA_wstage2 := d_w_stage_2 s; evA_epot := d_e_pot s; evA_et0 := w_et0 w; evA_infl := infR_infl r_inf;
-                   evA_rain := w_rain w; evA_irr := irrd; evA_gs := gs |} in
-    let r_ev := p_ev P prof a_ev in
-    (* 13. transpiration *)
-    let a_tr := {| trA_ncomp := so_nComp soil; trA_ztop := so_z_top soil; trA_crop := crop; trA_method := i_method irr;
-                   trA_smt := i_NetIrrSMT irr; trA_dap := dap; trA_dcd := dcd; trA_age_days_ns := d_age_days_ns s;
-                   trA_age_days := d_age_days s; trA_ccx_w_ns := ccR_ccx_w_ns r_cc; trA_ccx_w := ccR_ccx_w r_cc;
-                   trA_cc_adj_ns := ccR_cc_adj_ns r_cc; trA_cc_adj := ccR_cc_adj r_cc; trA_cc_ns := ccR_cc_ns r_cc; trA_cc := ccR_cc r_cc;
-                   trA_cc_prev := ccR_cc_prev r_cc; trA_surf := evR_surf r_ev; trA_day_sub := rpR_daysub r_rp;
-                   trA_aer_comp := d_aer_days_comp s; trA_zroot := zroot; trA_th := evR_th r_ev; trA_t_early_sen := ccR_t_early_sen r_cc;
-                   trA_aer_days := d_aer_days s; trA_rcor := rdR_rcor r_rd; trA_irr_net_cum := d_irr_net_cum s;
-                   trA_depletion := irR_depletion r_ir; trA_taw := irR_taw r_ir; trA_tr_ratio := d_tr_ratio s; trA_et0 := w_et0 w;
-                   trA_co2c := p_co2c par season; trA_co2r := p_co2r par; trA_gs := gs; trA_gdd := gdd |} in
-    let r_tr := p_tr P prof a_tr in
-    (* 14. groundwater inflow *)
-    let a_gi := {| giA_th := trR_th r_tr; giA_wtsoil := gwR_wtsoil r_gw; giA_zgw := zgw |} in
-    let r_gi := p_gi P prof a_gi in
-    let th_end := giR_th r_gi in
-    (* 15. reference harvest index *)
-    let a_hr := {| hrA_hiref := d_hi_ref s; hrA_hifinal := d_HIfinal s; hrA_dap := dap; hrA_dcd := dcd; hrA_yf := d_yield_form s;
-                   hrA_pct := d_pct_lag_phase s; hrA_cc := trR_cc r_tr; hrA_ccprev := ccR_cc_prev r_cc; hrA_ccxw := ccR_ccx_w r_cc;
-                   hrA_crop := crop; hrA_gs := gs |} in
-    let r_hr := p_hr P a_hr in
-    (* 16. biomass accumulation *)
-    let a_bm := {| bmA_crop := crop; bmA_dap := dap; bmA_dcd := dcd; bmA_hiref := hrR_hiref r_hr; bmA_pct := hrR_pct r_hr;
-                   bmA_b := d_biomass s; bmA_bns := d_biomass_ns s; bmA_tr := trR_tr r_tr; bmA_trpot := trR_trpot_ns r_tr;
-                   bmA_et0 := w_et0 w; bmA_gs := gs |} in
-    let r_bm := p_bm P a_bm in
-    (* 17. harvest index *)
-    let a_hi := {| hiA_ztop := so_z_top soil; hiA_crop := crop; hiA_hi := d_harvest_index s; hiA_hiadj := d_harvest_index_adj s;
-                   hiA_preadj := d_pre_adj s; hiA_fpre := d_f_pre s; hiA_fpol := d_f_pol s; hiA_scor1 := d_s_cor1 s; hiA_scor2 := d_s_cor2 s;
-                   hiA_upp := d_fpost_upp s; hiA_dwn := d_fpost_dwn s; hiA_fpost := d_f_post s; hiA_zroot := zroot; hiA_th := th_end;
-                   hiA_t_early_sen := ccR_t_early_sen r_cc; hiA_hiref := hrR_hiref r_hr; hiA_dap := dap; hiA_dcd := dcd;
-                   hiA_yf := hrR_yf r_hr; hiA_b := bmR_b r_bm; hiA_bns := bmR_bns r_bm; hiA_cc := trR_cc r_tr; hiA_et0 := w_et0 w;
-                   hiA_tmax := w_tmax w; hiA_tmin := w_tmin w; hiA_gs := gs |} in
-    let r_hi := p_hi P prof a_hi in
-    (* 18. yield potential, 19. dry and fresh yield *)
-    let ypot := (bmR_bns r_bm / #100) * hiR_hi r_hi in
-    let dry := if gs then (bmR_b r_bm / #100) * hiR_hiadj r_hi else #0 in
-    let fresh := if gs then dry / (c_YldWC crop / #100) else #0 in
-    (* 20. root zone water *)
-    let a_rz := {| rzA_zroot := zroot; rzA_th := th_end; rzA_ztop := so_z_top soil; rzA_zmin := c_Zmin crop; rzA_aer := c_Aer crop |} in
-    let r_rz := p_rz P prof a_rz in
-    (* 21. net irrigation of the day includes the pre-irrigation *)
-    let irrnet := trR_irrnet r_tr + piR_preirr r_pi in
-    let irr_net_cum := trR_irr_net_cum r_tr + piR_preirr r_pi in
-    let irrday := if gs then (if (i_method irr =? 4)%Z then irrnet else irrd) else #0 in
-    {| o_state := {|
-         d_age_days := trR_age_days r_tr; d_age_days_ns := trR_age_days_ns r_tr; d_aer_days := trR_aer_days r_tr;
-         d_aer_days_comp := trR_aer_comp r_tr; d_irr_cum := irR_irrcum r_ir; d_delayed_gdds := dgdd; d_delayed_cds := dcd;
-         d_pct_lag_phase := hrR_pct r_hr; d_t_early_sen := ccR_t_early_sen r_cc; d_gdd_cum := gdd_cum;
-         d_day_submerged := trR_day_sub r_tr; d_irr_net_cum := irr_net_cum; d_e_pot := evR_epot r_ev; d_t_pot := trR_t_pot r_tr;
-         d_pre_adj := hiR_preadj r_hi; d_crop_dead := ccR_dead r_cc; d_germination := geR_germ r_ge; d_premat_senes := ccR_premat r_cc;
-         d_growing_season := gs; d_yield_form := hrR_yf r_hr; d_stage2 := evR_stage2 r_ev; d_wt_in_soil := gwR_wtsoil r_gw;
-         d_stage := d_stage s; d_f_pre := hiR_fpre r_hi; d_f_post := hiR_fpost r_hi; d_fpost_dwn := hiR_dwn r_hi;
-         d_fpost_upp := hiR_upp r_hi; d_h1_cor_asum := d_h1_cor_asum s; d_h1_cor_bsum := d_h1_cor_bsum s; d_f_pol := hiR_fpol r_hi;
-         d_s_cor1 := hiR_scor1 r_hi; d_s_cor2 := hiR_scor2 r_hi; d_hi_ref := hrR_hiref r_hr; d_HIfinal := d_HIfinal s;
-         d_growth_stage := gstR_stage r_gst; d_tr_ratio := trR_tr_ratio r_tr; d_r_cor := rdR_rcor r_rd;
-         d_canopy_cover := trR_cc r_tr; d_canopy_cover_adj := ccR_cc_adj r_cc; d_canopy_cover_ns := ccR_cc_ns r_cc;
-         d_canopy_cover_adj_ns := ccR_cc_adj_ns r_cc; d_biomass := bmR_b r_bm; d_biomass_ns := bmR_bns r_bm; d_YieldPot := ypot;
-         d_harvest_index := hiR_hi r_hi; d_harvest_index_adj := hiR_hiadj r_hi; d_ccx_act := ccR_ccx_act r_cc;
-         d_ccx_act_ns := ccR_ccx_act_ns r_cc; d_ccx_w := ccR_ccx_w r_cc; d_ccx_w_ns := ccR_ccx_w_ns r_cc;
-         d_ccx_early_sen := ccR_ccx_early_sen r_cc; d_cc_prev := ccR_cc_prev r_cc; d_protected_seed := ccR_prot r_cc;
-         d_DryYield := dry; d_FreshYield := fresh; d_z_root := zroot; d_cc0_adj := ccR_cc0_adj r_cc;
-         d_surface_storage := trR_surf r_tr; d_z_gw := zgw; d_th_fc_Adj := fcadj; d_th := th_end; d_thini := d_thini s;
-         d_time_step_counter := tsc; d_precipitation := w_rain w; d_temp_max := w_tmax w; d_temp_min := w_tmin w; d_et0 := w_et0 w;
-         d_sumET0EarlySen := d_sumET0EarlySen s; d_gdd := if gs then gdd else d_gdd s; d_w_surf := evR_wsurf r_ev;
-         d_evap_z := evR_evapz r_ev; d_w_stage_2 := evR_wstage2 r_ev;
-         (* outside the season depletion / taw of the root zone are stored (l.468-469) *)
-         d_depletion := if gs then trR_depletion r_tr else rzR_drrz r_rz;
-         d_taw := if gs then trR_taw r_tr else rzR_tawrz r_rz |};
-       o_row := {|
-         r_flux := {| fl_tsc := tsc; fl_season := season; fl_dap := dap; fl_Wr := rzR_wr r_rz; fl_zgw := zgw;
-                      fl_surf := trR_surf r_tr; fl_IrrDay := irrday; fl_Infl := infR_infl r_inf; fl_Runoff := infR_runoff r_inf;
-                      fl_DeepPerc := infR_deepperc r_inf; fl_CR := crR_cr r_cr; fl_GwIn := giR_gwin r_gi; fl_Es := evR_es r_ev;
-                      fl_EsPot := evR_espot r_ev; fl_Tr := trR_tr r_tr; fl_TrPot := trR_trpot r_tr |};
-         r_growth := {| gr_tsc := tsc; gr_season := season; gr_dap := dap; gr_gdd := gdd; gr_gdd_cum := gdd_cum; gr_z_root := zroot;
-                        gr_cc := trR_cc r_tr; gr_cc_ns := ccR_cc_ns r_cc; gr_B := bmR_b r_bm; gr_B_ns := bmR_bns r_bm;
-                        gr_HI := hiR_hi r_hi; gr_HIadj := hiR_hiadj r_hi; gr_Dry := dry; gr_Fresh := fresh; gr_Pot := ypot |};
-         r_sto := {| st_tsc := tsc; st_gs := gs; st_dap := dap; st_th := th_end |} |};
-       o_trace := {|
-         t_gd := if gs then Some a_gd else None; t_gw := a_gw; t_rd := a_rd; t_pi := a_pi; t_dr := a_dr; t_rp := a_rp; t_ir := a_ir;
-         t_inf := a_inf; t_cr := a_cr; t_ge := a_ge; t_gst := a_gst; t_cc := a_cc; t_ev := a_ev; t_tr := a_tr; t_gi := a_gi;
-         t_hr := a_hr; t_bm := a_bm; t_hi := a_hi; t_rz := a_rz |} |}.
+    let x := {| x_par := par; x_season := season; x_gs := gs; x_dap := dap; x_tsc := tsc; x_w := w; x_s := s |} in
+    day_out x (results x P).
 
   (* exactly the type of Clock.v's [proc]: season, in-season?, days after planting (already incremented), step *)
   Definition day_proc (par : DPar) (P : Procs) (season : Z) (gs : bool) (dap tsc : Z) (w : W) (s : DState) : DState * DRow :=
@@ -557,3 +629,5 @@ Arguments StoRow F : clear implicits.
 Arguments DRow F : clear implicits.
 Arguments DOut F : clear implicits.
 Arguments DayOut F : clear implicits.
+Arguments Ctx F : clear implicits.
+Arguments Results F : clear implicits.
